@@ -16,11 +16,13 @@ META = dict(
         'the issuer argument of every validate_*/process call is `self.cert.cert()` of the publication point. K4 on '
         'ValidPointManifest::check_crl (Ok only if the CRL URI equals the manifest CRL and the serial is not revoked) and '
         'on load_ta/process_tal_task. K3: PubPointProcessor literals only in process_ta/process_ca; '
-        'ValidationReport.pub_points pushed only in commit; commit called only from accept_point.'),
+        'ValidationReport.pub_points pushed only in commit; commit called only from accept_point. Shared with C06 (same rule '
+        'functions): the stale policy table for manifest and CRL (fetched and stored) and the premature test, i.e. the '
+        '"current manifest / CRL" clause.'),
     decides='on every path to a payload sink all listed checks have passed, with the right issuer',
     undecided='correctness of the checks inside the rpki crate (signatures, resource containment, validity times)',
     trusted_base=['rustc MIR construction + callee resolution', 'rpki crate validate_*/process/verify semantics'],
-    rules=['K1 guard tables (11 bodies)', 'issuer-argument provenance', 'K4 check_crl', 'K3 processor constructors / report writers'],
+    rules=['K1 guard tables (11 bodies)', 'issuer-argument provenance', 'K4 check_crl', 'K3 processor constructors / report writers', 'K4 stale/premature tables (shared with C06)'],
 )
 
 ISSUER = 'call:CaCert::cert(self.cert)'
@@ -343,4 +345,6 @@ def rule_who(ctx):
         who_calls(ctx, 'K3', sink, allowed)
 
 
-RULES = [rule_tal, rule_signed_objects, rule_certs, rule_check_crl, rule_manifests, rule_objects, rule_who]
+from props.C06 import rule_stale, rule_premature  # noqa: E402  ("current" manifest and CRL: shared with C06)
+
+RULES = [rule_tal, rule_signed_objects, rule_certs, rule_check_crl, rule_manifests, rule_objects, rule_who, rule_stale, rule_premature]
